@@ -25,29 +25,48 @@ input (`Op.deliver`); theorems about agreement take it as the named hypothesis `
 namespace NoKV.Cluster
 
 structure PipeCfg where
-  /-- `applyEntries` completes a waiter only for entries proposed by the applying store -/
+  /-- an applied entry completes a waiter only when it was proposed by the applying store:
+  `applyEntries` asks for the header's peer (fact `pipe.applyChecksProposer`) *and* that peer id
+  is trustworthy, i.e. `validateCommand` overwrites `Header.PeerId` unconditionally with the
+  local peer (fact `propose.stampsProposer`) -/
   matchProposer : Bool
   /-- `completeProposal` deletes the id from the map before delivering the result -/
   completeDeletes : Bool
   /-- `registerProposal` rejects an id that is already waiting -/
   regRejectsDup : Bool
+  /-- `handleReady` hands every committed command entry to the apply function exactly once, in
+  log order: entries are collected into one slice that is applied once after the loop (facts
+  `peer.applyPartition`, `peer.applyInOrder`, `pipe.applySkips`).  `false` stands for the shape
+  "flush the collected entries before every conf-change / admin entry, then apply the whole
+  slice again at the end". -/
+  applyEachOnce : Bool
   deriving DecidableEq, Repr
 
-def PipeCfg.good : PipeCfg := ⟨true, true, true⟩
-def PipeCfg.asIs : PipeCfg := ⟨false, true, true⟩
+def PipeCfg.good : PipeCfg := ⟨true, true, true, true⟩
+def PipeCfg.asIs : PipeCfg := ⟨false, true, true, true⟩
 
 /-- the configuration for which the headline theorem holds -/
 def PipeCfg.Good (c : PipeCfg) : Prop :=
-  c.matchProposer = true ∧ c.completeDeletes = true ∧ c.regRejectsDup = true
+  c.matchProposer = true ∧ c.completeDeletes = true ∧ c.regRejectsDup = true ∧ c.applyEachOnce = true
 instance PipeCfg.decGood (c : PipeCfg) : Decidable c.Good := by unfold PipeCfg.Good; exact inferInstance
 
 /-- what the as-is code still guarantees: results are handed over at most once -/
 def PipeCfg.Once (c : PipeCfg) : Prop := c.completeDeletes = true
 instance PipeCfg.decOnce (c : PipeCfg) : Decidable c.Once := by unfold PipeCfg.Once; exact inferInstance
 
+/-- every committed command entry reaches the applier exactly once -/
+def PipeCfg.DeliversOnce (c : PipeCfg) : Prop := c.applyEachOnce = true
+instance PipeCfg.decDeliversOnce (c : PipeCfg) : Decidable c.DeliversOnce := by
+  unfold PipeCfg.DeliversOnce; exact inferInstance
+
+/-- the defect: a batch is partly applied twice -/
+def PipeCfg.Redelivers (c : PipeCfg) : Prop := c.applyEachOnce = false
+instance PipeCfg.decRedelivers (c : PipeCfg) : Decidable c.Redelivers := by
+  unfold PipeCfg.Redelivers; exact inferInstance
+
 /-- the as-is defect: completion keyed by the bare request id on every replica -/
 def PipeCfg.AsIs (c : PipeCfg) : Prop :=
-  c.matchProposer = false ∧ c.completeDeletes = true ∧ c.regRejectsDup = true
+  c.matchProposer = false ∧ c.completeDeletes = true ∧ c.regRejectsDup = true ∧ c.applyEachOnce = true
 instance PipeCfg.decAsIs (c : PipeCfg) : Decidable c.AsIs := by unfold PipeCfg.AsIs; exact inferInstance
 
 /-- A command entry of the raft log: header (proposer store, request id) and payload identity. -/
@@ -152,6 +171,20 @@ def cmdOf : RawEntry → Option Entry
   | .cmd e => some e
   | _ => none
 
+def isCmdLike : RawEntry → Bool
+  | .conf => false
+  | .admin => false
+  | _ => true
+
+/-- the part of a committed batch up to its last conf-change / admin entry -/
+def beforeLastBarrier (b : List RawEntry) : List RawEntry := (b.reverse.dropWhile isCmdLike).reverse
+
+/-- the command entries `handleReady` hands to the apply function for one batch of committed
+entries, in the order in which it does so -/
+def handedToApply (c : PipeCfg) (b : List RawEntry) : List Entry :=
+  if c.applyEachOnce then b.filterMap cmdOf
+  else (beforeLastBarrier b).filterMap cmdOf ++ b.filterMap cmdOf
+
 inductive Op where
   | next (s : Nat)
   | propose (s w tag : Nat)
@@ -163,7 +196,7 @@ inductive Op where
 def step (c : PipeCfg) (σ : Sys) : Op → Sys
   | .next s => (nextId σ s).1
   | .propose s w tag => propose c σ s w tag
-  | .deliver s b => (b.filterMap cmdOf).foldl (applyOne c s) σ
+  | .deliver s b => (handedToApply c b).foldl (applyOne c s) σ
   | .rm s id => remove σ s id
   | .restart s => restart σ s
 
